@@ -151,6 +151,24 @@ def size_exceeded_truth(lf):
                 v = not tv
             else:
                 v = ("wrong-operator", t[1])
+            continue
+        # `limit.checked_sub(length)` is None exactly when length > limit (the subtraction spelled as the comparison)
+        x = look(t[1]) if t[0] == "discr" else look(t)
+        some = None
+        if t[0] == "discr" and is_call(x, "checked_sub"):
+            some = option_is_some(c)
+        elif is_call(x, "is_none", "is_some") and x[2] and is_call(look(x[2][0]), "checked_sub") and truth(c) is not None:
+            some = truth(c) if last_seg(x[1]) == "is_some" else not truth(c)
+            x = look(x[2][0])
+        if some is None or len(x[2]) != 2:
+            continue
+        has_len = lambda y: any(is_call(look(s_), "common::headers::Headers::content_length") for s_ in subterms(y) if isinstance(s_, tuple))
+        has_lim = lambda y: any(isinstance(s_, tuple) and s_ and s_[0] == "field" and s_[3] == "payload_max_size" for s_ in subterms(y))
+        a, b = x[2]
+        if has_lim(a) and has_len(b) and not has_len(a) and not has_lim(b):
+            v = not some
+        elif has_len(a) and has_lim(b):
+            v = ("wrong-operator", "length.checked_sub(limit) succeeds for length >= limit")
     return v
 
 
